@@ -8,6 +8,7 @@ import (
 	"errors"
 	"fmt"
 	"sync"
+	"sync/atomic"
 	"time"
 )
 
@@ -48,6 +49,51 @@ type ExecDouble struct {
 	GetTxsErr int
 	// OnFinal, if set, is called at the start of every SetFinal call (before it is logged).
 	OnFinal func(height uint64)
+	// CallDelay makes ExecuteTxs and SetFinal take that long (a remote execution client); a call whose context
+	// is cancelled meanwhile is aborted with AbortErr (default: the context's error) - remote clients surface
+	// transport-style errors there, not Go's context errors.
+	CallDelay time.Duration
+	AbortErr  error
+	// blockCalls makes every ExecuteTxs / SetFinal call wait until its context ends (see BlockCalls)
+	blockCalls   atomic.Bool
+	inFlightExec atomic.Int64
+	inFlightFin  atomic.Int64
+}
+
+// BlockCalls switches the "remote client hangs until the caller gives up" mode on or off.
+func (e *ExecDouble) BlockCalls(on bool) { e.blockCalls.Store(on) }
+
+// InFlight returns how many ExecuteTxs and SetFinal calls are currently waiting inside the double.
+func (e *ExecDouble) InFlight() (exec, final int64) {
+	return e.inFlightExec.Load(), e.inFlightFin.Load()
+}
+
+// slowCall waits CallDelay; it returns the abort error if the context ends first.
+func (e *ExecDouble) slowCall(ctx context.Context, final bool) error {
+	ctr := &e.inFlightExec
+	if final {
+		ctr = &e.inFlightFin
+	}
+	ctr.Add(1)
+	defer ctr.Add(-1)
+	var wait <-chan time.Time
+	switch {
+	case e.blockCalls.Load():
+		wait = nil // only the context ends the call
+	case e.CallDelay <= 0:
+		return nil
+	default:
+		wait = time.After(e.CallDelay)
+	}
+	select {
+	case <-wait:
+		return nil
+	case <-ctx.Done():
+		if e.AbortErr != nil {
+			return e.AbortErr
+		}
+		return ctx.Err()
+	}
 }
 
 // NewExecDouble creates an execution double.
@@ -114,6 +160,9 @@ func (e *ExecDouble) GetTxs(ctx context.Context) ([][]byte, error) {
 
 func (e *ExecDouble) ExecuteTxs(ctx context.Context, txs [][]byte, blockHeight uint64, timestamp time.Time, prevStateRoot []byte) ([]byte, uint64, error) {
 	e.delay("exec")
+	if err := e.slowCall(ctx, false); err != nil {
+		return nil, 0, err
+	}
 	e.mu.Lock()
 	defer e.mu.Unlock()
 	call := ExecCall{Seq: len(e.calls), Kind: "exec", Height: blockHeight, PrevRoot: append([]byte{}, prevStateRoot...), TimeNano: timestamp.UnixNano()}
@@ -165,6 +214,9 @@ func (e *ExecDouble) SetFinal(ctx context.Context, blockHeight uint64) error {
 	e.delay("final")
 	if e.OnFinal != nil {
 		e.OnFinal(blockHeight)
+	}
+	if err := e.slowCall(ctx, true); err != nil {
+		return err
 	}
 	e.mu.Lock()
 	defer e.mu.Unlock()
